@@ -133,6 +133,7 @@ type TreeGen struct {
 	IndexOpts bool
 	Wraps     bool
 	MutexOpt  bool
+	FIFOOpt   bool
 	NilLeaves bool
 	EmptyStacks bool
 	Budget    int // max total nodes
@@ -184,6 +185,9 @@ func (st *treeState) stackOpts(t *rapid.T, n *Node) {
 	}
 	if g.MutexOpt {
 		n.Mutex = rapid.IntRange(0, 2).Draw(t, "mutex") == 0
+	}
+	if g.FIFOOpt {
+		n.FIFO = rapid.IntRange(0, 2).Draw(t, "fifo") == 0
 	}
 	if g.Wraps {
 		n.Wrap = rapid.IntRange(0, 4).Draw(t, "wrap")
